@@ -17,12 +17,15 @@ BET = 'bounded-exhaustive enumeration of inputs/programs (complete up to the siz
 CHECKS = {
     # id: (engine, text, note, technique)
     'C01': ('dbmc', 'Every state reachable within the depth bound from three mid-flight batches (nested groups, always-run jobs, a second update submitted request by request) under real scheduler/canceller sweeps, worker reports incl. duplicates and stale attempts, cancellation of any group, preemption, cleanup sweeps and token-shard flips; per-user and per-group counters recomputed independently from the jobs table in every state.', DB, DBT),
+    'C02': ('dbmc', 'Every history (to the depth bound) of attempts on two jobs (root / nested group) with resource registrations before or after start (two resources sharing a de-duplicated id), heartbeats, started/complete reports incl. late and repeated ones, unscheduling, preemption, both compaction routines, billing-date and token-shard changes; per-job, per-group, per-(project,user) and summed-per-day usage recomputed from attempts x attempt_resources in every state; compaction must leave every total unchanged.', DB, DBT),
     'C03': ('dbmc', 'Every sequence (to the depth bound) of the real operations that write an attempt row (schedule, creating/started/complete reports, heartbeats, unschedule, instance deactivation with each reason) over a 3-value clock on two attempts; the per-transition rules of the statement checked on every row change.', DB, DBT),
     'C04': ('dbmc', 'Same state space as C01; every jobs-row state change is observed at row-update granularity inside the SQL interpreter and judged against the allowed lifecycle relation; group tallies recomputed in every state.', DB, DBT),
     'C06': ('dbmc', 'Same state space as C01; completion flags, n_jobs and tallies of the batch and every visible group recomputed from job states in every state, also through the real readers _get_batch/_get_job_group.', DB, DBT),
     'C41': ('dbmc', 'Same state space as C01 with the second update committed late or never; jobs of uncommitted updates must stay Pending, never get attempts (the real scheduler sweep is a transition), and never influence counters, tallies or completion (C01/C06 recomputations restricted to committed updates).', DB, DBT),
     'C05': ('dbmc', 'Every job DAG on 3 (thorough: 4) jobs x every split of the jobs over update 1 / update 2 x always-run choices; for each program every interleaving (to the depth bound) of the requests of the second update, committed at every possible point, with real scheduler sweeps, success/failure reports and canceller sweeps; readiness gating, cancelled-flag propagation and never-stuck-Pending judged on every row change and state.', DB, DBT),
     'C07': ('dbmc', 'Group trees root>g1>g2 with a sibling; cancellation of any group in any order incl. sub-group before ancestor and repeats, interleaved with real scheduler/canceller sweeps, worker reports and a client submitting groups/jobs/updates beneath the groups; confinement, rejection-without-effect, idempotence, unaffected siblings and error-free scheduling requests judged on every transition.', DB, DBT),
+    'C08': ('benum', 'Every bunch of 1-2 job specs for an open update (ids in/outside the reserved range; in-update and absolute parents among earlier, self, later, missing incl. an id reserved by an abandoned update) through the real validator and _create_jobs over the interpreted database; well-formed => accepted, committed and driven to completion by the real scheduler sweep; ill-formed => refused with the database unchanged.', DB, BET),
+    'C10': ('dbmc', 'Every history (to the depth bound) of schedule / creating / started / complete / unschedule / deactivate / activate events incl. duplicates and stale attempts for two jobs on a pool instance and a job-private instance; free cores recomputed from live attempts in every state and compared with the table and with the driver\'s in-memory Instance mirror.', DB, DBT),
     'C11': ('benum', 'The real PoolScheduler._compute_fair_share on every multiset of <=4 (thorough 5) users over a demand grid x free-core values incl. zero/negative, in several record orders, against exact rational water-filling.', BE, BET),
     'C12': ('benum', 'Every request of a cpu x memory x storage x preemptible x label / machine-type grid through the real front_end._create_jobs pre-processing and InstanceCollectionConfigs.select_inst_coll for every pool deployment the driver admits on gcp and azure; accept side against the statement, reject side against an independent brute force.', BE, BET),
     'C13': ('benum', 'Real GCP/Azure instance configs for every admitted pool shape and machine type x disks x locations; all multisets of power-of-two job sizes packed on one worker summed per resource against the whole-worker billing; to_dict/JSON/from_dict reload bills identically.', BE, BET),
@@ -37,6 +40,7 @@ CHECKS = {
     'C27': ('vloop', 'Real gear.database transaction helpers over the aiomysql shim with a transactional in-memory backend: every fault plan with <=2 (thorough 3) injected MySQL errors (9 errnos, raised as the class PyMySQL 1.x raises) at every position of 15 operations.', VL + ' The errno->exception-class map is PyMySQL 1.1.x from memory (no copy in the sandbox).', VLT),
     'C28': ('benum', 'Every string of length <=5 (thorough 6) over 16 class-representative characters (ASCII classes, newline, CR, NUL, space, non-ASCII letters/digits) through the validators and their call site, against two hand-written DFAs.', BE, BET),
     'C29': ('benum', 'Every concatenation of <=5 tokens (plus 6-token sequences over a core alphabet; thorough one more) of URL-significant tokens through validate_next_page_url; for each accepted string the Location the handler sends is resolved by a WHATWG-style reference parser.', BE, BET),
+    'C30': ('dbmc', 'Explicit-state BFS over histories of world events (pushes, target moves, reviews, labels, statuses, batch completions, webhook and callback deliveries, CI ticks) where every transition runs the real WatchedBranch/PR code against a fake GitHub and a real batch client over a fake transport; the merge oracle is evaluated on world truth at every accepted merge PUT.', 'Trusted: the fake GitHub (merge PUT succeeds only for the current head of an open PR; branch protection not enforced), the fake batch transport, atomic CI passes, the stated bounds.', DBT),
     'C31': ('benum', 'All types to depth 2-3 x a name set incl. every troublemaker character class as field / genome names: str/dtype round trip, escape/unescape inversion, and every emitted identifier through an engine-lexer acceptor whose accept set is extracted from the current Scala source.', BE, BET),
     'C32': ('benum', 'All types to depth 2 (+ thin depth 3) x per-type value domains (missing everywhere, boundary numbers, NaN/inf, calls, loci, intervals, collections) through the JSON wire conversion and back.', BE, BET),
     'C33': ('benum', 'All types to depth 1-2 x covering value domains incl. n-d arrays in C/Fortran order through the real EncodedLiteral encoding, hail decoder and an independent reference decoder driven by the EType tree the sliced engine code (run on a JVM) declares.', BE + ' Engine side: sliced Scala compiled with Scala 3.3.4 against class-shape stand-ins.', BET),
